@@ -22,6 +22,47 @@ fn script() -> Value {
     serde_json::from_str(&std::fs::read_to_string(p).expect("read script")).expect("script json")
 }
 
+/// Run one complete detect (or build, by the executable's name) of the warm-up scenario under `root` in this process and
+/// put environment and working directory back. Markers and dumps are off while it runs.
+pub fn warmup(root: &std::path::Path) {
+    use libcnb::{BuildArgs, DetectArgs, libcnb_runtime_build, libcnb_runtime_detect};
+    let is_build = std::env::args_os().next().map(|a| std::path::Path::new(&a).file_name().map(|n| n == "build").unwrap_or(false)).unwrap_or(false);
+    let saved: Vec<(std::ffi::OsString, Option<std::ffi::OsString>)> = ["CNB_BUILDPACK_DIR", "CNB_TARGET_OS", "CNB_TARGET_ARCH", "CNB_TARGET_ARCH_VARIANT", "CNB_TARGET_DISTRO_NAME", "CNB_TARGET_DISTRO_VERSION", "VBP_SCRIPT", "VBP_MARKERS", "VBP_DUMP"]
+        .iter()
+        .map(|k| (std::ffi::OsString::from(k), std::env::var_os(k)))
+        .collect();
+    let cwd = std::env::current_dir().ok();
+    // SAFETY: single-threaded at this point (first statement of main)
+    unsafe {
+        std::env::set_var("CNB_BUILDPACK_DIR", root.join("buildpack"));
+        std::env::set_var("CNB_TARGET_OS", "warm-os");
+        std::env::set_var("CNB_TARGET_ARCH", "warm-arch");
+        std::env::set_var("CNB_TARGET_ARCH_VARIANT", "warm-variant");
+        std::env::set_var("CNB_TARGET_DISTRO_NAME", "warm-distro");
+        std::env::set_var("CNB_TARGET_DISTRO_VERSION", "0.0");
+        std::env::set_var("VBP_SCRIPT", root.join("script.json"));
+        std::env::remove_var("VBP_MARKERS");
+        std::env::remove_var("VBP_DUMP");
+    }
+    let _ = std::env::set_current_dir(root.join("app"));
+    if is_build {
+        let _ = libcnb_runtime_build(&HB, BuildArgs { layers_dir_path: root.join("layers"), platform_dir_path: root.join("platform"), buildpack_plan_path: root.join("plan.toml") });
+    } else {
+        let _ = libcnb_runtime_detect(&HB, DetectArgs { platform_dir_path: root.join("platform"), build_plan_path: root.join("plan.toml") });
+    }
+    unsafe {
+        for (k, v) in saved {
+            match v {
+                Some(v) => std::env::set_var(&k, v),
+                None => std::env::remove_var(&k),
+            }
+        }
+    }
+    if let Some(c) = cwd {
+        let _ = std::env::set_current_dir(c);
+    }
+}
+
 pub fn marker(line: &str) {
     if let Some(p) = std::env::var_os("VBP_MARKERS") {
         if let Ok(mut f) = std::fs::OpenOptions::new().create(true).append(true).open(p) {
